@@ -50,7 +50,9 @@ fn s(x: &str) -> A {
 
 const USIZES: [usize; 5] = [0, 1, 2, usize::MAX - 1, usize::MAX];
 const U64S: [u64; 5] = [0, 1, 2, u64::MAX - 1, u64::MAX];
-const STRS: [&str; 3] = ["x", "a b", " lead"];
+/// ordinary, blank inside, leading blank, and strings that need quoting AND escaping (they all
+/// contain a blank, so the known finding C06/unquoted-escape does not apply), empty, tab, non-ASCII
+const STRS: [&str; 8] = ["x", "a b", " lead", "a \"q\" b", "back \\ slash", "", "tab\tx", "\u{e9} \u{fc}"];
 
 fn durations() -> Vec<Duration> {
     vec![
@@ -117,7 +119,8 @@ fn all_cases() -> Vec<Case> {
         v.push(case(format!("SubscribeToChannel({x:?})"), c::SubscribeToChannel(x), "subscribe", vec![s(x)]));
         v.push(case(format!("UnsubscribeFromChannel({x:?})"), c::UnsubscribeFromChannel(x), "unsubscribe", vec![s(x)]));
         v.push(case(format!("GetPlaylist({x:?})"), c::GetPlaylist(x), "listplaylistinfo", vec![s(x)]));
-        v.push(case(format!("ListAllIn::directory({x:?})"), c::ListAllIn::directory(x), "listallinfo", vec![s(x)]));
+        // (the empty directory is the library root: `listallinfo` without an argument, by design)
+        v.push(case(format!("ListAllIn::directory({x:?})"), c::ListAllIn::directory(x), "listallinfo", if x.is_empty() { vec![] } else { vec![s(x)] }));
         v.push(case(format!("Update::uri({x:?})"), c::Update::new().uri(x), "update", vec![s(x)]));
         v.push(case(format!("Rescan::uri({x:?})"), c::Rescan::new().uri(x), "rescan", vec![s(x)]));
         v.push(case(format!("Add::uri({x:?})"), c::Add::uri(x), "addid", vec![s(x)]));
